@@ -211,15 +211,15 @@ def laws():
             "dot(f,g)*h": lambda: V.VectorDot(f(t), gg(t)) * h(t),
         }[name]()
 
-    DS = [(op, tx, ty, o) for op in ("norm", "dot", "cross", "mixed", "scale", "sum")
-          for tx in DT for ty in (DT if op in ("dot", "cross", "mixed", "sum") else ["a"]) for o in ((0, 1), (1, 0))]
+    DS = [(op, tx, ty, o, order) for order in (1, 2) for op in (("norm", "dot", "cross", "mixed", "scale", "sum") if order == 1 else ("dot", "cross", "mixed", "scale", "sum"))
+          for tx in (DT if order == 1 else DT[:4]) for ty in ((DT if order == 1 else DT[:3]) if op in ("dot", "cross", "mixed", "sum") else ["a"]) for o in ((0, 1), (1, 0))]
 
-    @law("_eval_derivative/derivative-of-value-equals-value-of-derivative", DS,
+    @law("_eval_derivative/derivative-of-value-equals-value-of-derivative(orders-1-and-2)", DS,
          ["VectorNorm._eval_derivative", "VectorDot._eval_derivative", "VectorCross._eval_derivative",
           "VectorMixedProduct._eval_derivative", "AppliedVectorFunction._eval_derivative", "VectorSymbol._eval_derivative",
           "VectorDerivative.__new__", "vector_diff"])
     def _(s, g):
-        op, tx, ty, o = s
+        op, tx, ty, o, order = s
         V = _V()
         pool = sorted([V.VectorSymbol(), V.VectorSymbol()], key=id)
         sy = [pool[o[0]], pool[o[1]]]
@@ -236,7 +236,7 @@ def laws():
         W = fs2[2](t)
         E = {"norm": lambda: V.VectorNorm(X), "dot": lambda: V.VectorDot(X, Y), "cross": lambda: V.VectorCross(X, Y),
              "mixed": lambda: V.VectorMixedProduct(X, Y, W), "scale": lambda: kf * X, "sum": lambda: X + Y}[op]()
-        D = sp.sympify(E).diff(t)
+        D = sp.sympify(E).diff(t, order)
         kd, d = sem(D, env)
         ke, e = sem(E, env)
         assume = []
@@ -244,8 +244,8 @@ def laws():
             x = _asvec(*sem(X, env))
             assume = [sp.Gt(dot3(x, x), 0)]
         if ke == "v" or kd == "v":
-            return Case(_vres(_asvec(kd, d), [sp.diff(c, t) for c in _asvec(ke, e)]), assume=assume)
-        return Case([canon(d - sp.diff(e, t))], assume=assume)
+            return Case(_vres(_asvec(kd, d), [sp.diff(c, t, order) for c in _asvec(ke, e)]), assume=assume)
+        return Case([canon(d - sp.diff(e, t, order))], assume=assume)
 
     return out
 
